@@ -26,7 +26,7 @@ pub fn run(args: &Args, r: &mut Report) {
         "c12-reboot-question-reasked-only-on-timer-or-on-demand",
         "c12-partial-firing-observed",
     ]);
-    let n = args.budget(3_000, 60_000);
+    let n = args.budget(30_000, 300_000);
     for i in 0..n {
         if args.skip(i) {
             continue;
